@@ -898,6 +898,11 @@ class Multiplexer(utils.EventEmitter):
                 c_r=0 if self.role == Multiplexer.Role.INITIATOR else 1, dlci=0
             )
         )
+        if self.disconnection_result:
+            # We were disconnecting too: that's done
+            if not self.disconnection_result.done():
+                self.disconnection_result.set_result(None)
+            self.disconnection_result = None
 
     def on_uih_frame(self, frame: RFCOMM_Frame) -> None:
         (mcc_type, c_r, value) = RFCOMM_Frame.parse_mcc(frame.information)
